@@ -364,21 +364,25 @@ def object_copy_problems(interface, prefix):
             if d or before[1] != after2[1]:
                 P.append((f"editing the result of Reaction {kind} changed the model at " + observe.first_path(d),
                           "\n".join(d)))
-    for x in list(m.metabolites):
+    for x in list(m.metabolites) + list(m.genes):
+        what = type(x).__name__
         before = full_view(S)
-        g_before = mutable_graph(m)
         new = x.copy()
         n += 1
-        if new.model is not None and False:
-            pass
-        gn = mutable_graph(new)
-        shared = sorted(g_before[i] for i in set(gn) & set(g_before) if "._model" not in gn.get(i, ""))
         new.annotation["x"] = "y"
         new.notes["x"] = "y"
+        # ... and in place below the first level
+        for holder in (new.annotation, new.notes):
+            for v in list(holder.values()):
+                if isinstance(v, list):
+                    v.append("added to the copy")
+                elif isinstance(v, dict):
+                    v["added to the copy"] = 1
+        new.name = "renamed copy"
         after = full_view(S)
         d = observe.diff(before[0], after[0])
         if d:
-            P.append(("editing Metabolite.copy() changed the model at " + observe.first_path(d), "\n".join(d)))
+            P.append((f"editing {what}.copy() changed the model at " + observe.first_path(d), "\n".join(d)))
     return P, n
 
 
